@@ -119,97 +119,7 @@ func runC02(c *core.Ctx, o Options) {
 		c.Check(len(bad) == 0, "R2", "KeyValue.AsTemplate", "exhaustive over the Value implementations and type preserving, fresh value per copy", at.Pos(), fmt.Sprint(covered), strings.Join(bad, "; "))
 	}
 	// ---- R3
-	for _, name := range []string{"Group.AsTemplate", "Component.AsTemplate"} {
-		fn := c.Func("fix", name)
-		if !c.Anchor(name, fn != nil, name, posOf(fn)) {
-			continue
-		}
-		var bad []string
-		// tmp := make([]Item, len(items)); for i, item := range items { tmp[i] = rebuilt }
-		src := map[string]string{"Group.AsTemplate": "g.template", "Component.AsTemplate": "c.items"}[name]
-		var mk *ssa.MakeSlice
-		an.AllInstrs(fn, func(in ssa.Instruction) {
-			if m, ok := in.(*ssa.MakeSlice); ok {
-				mk = m
-			}
-		})
-		if mk == nil || an.Render(mk.Len) != "len("+src+")" {
-			bad = append(bad, "the copy is not allocated with one slot per template item (make(len("+src+")))")
-		}
-		want := map[string]string{
-			"KeyValue":  ".AsTemplate()",
-			"Group":     "fix.NewGroup(",
-			"Component": "fix.NewComponent(",
-		}
-		seen := map[string]bool{}
-		an.AllInstrs(fn, func(in ssa.Instruction) {
-			st, ok := in.(*ssa.Store)
-			if !ok {
-				return
-			}
-			ia, ok := st.Addr.(*ssa.IndexAddr)
-			if !ok || mk == nil || ia.X != ssa.Value(mk) {
-				return
-			}
-			if rangeIndexPhi(ia.Index) == nil {
-				bad = append(bad, "a rebuilt item is stored at "+an.Render(ia.Index)+", not at the position of the item it was built from")
-				return
-			}
-			elem := src + "[" + an.Render(ia.Index) + "]"
-			// candidates: the value stored, or — when it is the result of a one-argument helper of the package applied to the
-			// element itself — what the helper returns on each of its paths, read in terms of its parameter
-			cands := [][2]string{{elem, an.Render(an.Unwrap(st.Val))}}
-			if call, ok := an.Unwrap(st.Val).(*ssa.Call); ok {
-				if cal := an.StaticCallee(&call.Call); cal != nil && cal.Pkg == fn.Pkg && len(cal.Params) == 1 && len(call.Call.Args) == 1 && an.Render(call.Call.Args[0]) == elem && cal.Signature.Results().Len() == 1 {
-					hp, _ := an.EnumPaths(cal, 64)
-					for _, p := range hp {
-						if p.Return != nil && len(p.ResVals) == 1 {
-							cands = append(cands, [2]string{cal.Params[0].Name(), an.Render(an.Unwrap(p.ResVals[0]))})
-						}
-					}
-				}
-			}
-			for _, cd := range cands {
-				el, r := cd[0], cd[1]
-				for kind, pat := range want {
-					asserted := el + ".(*fix." + kind + ")#0"
-					switch kind {
-					case "KeyValue":
-						if r == asserted+pat {
-							seen[kind] = true
-						}
-					case "Group":
-						if r == pat+asserted+".NoTag(), "+asserted+".AsTemplate())" {
-							seen[kind] = true
-						}
-					case "Component":
-						if r == pat+asserted+".AsTemplate())" {
-							seen[kind] = true
-						}
-					}
-				}
-			}
-		})
-		for kind := range want {
-			if !seen[kind] {
-				bad = append(bad, "no (correct) case rebuilding a *"+kind+" at its own index from its own template")
-			}
-		}
-		// range over the whole source
-		col := loops(fn)
-		if len(col) != 1 {
-			bad = append(bad, fmt.Sprintf("%d loops", len(col)))
-		}
-		ps, _ := an.EnumPaths(fn, 256)
-		for _, p := range ps {
-			if p.Return != nil && len(p.ResVals) == 1 && an.Unwrap(p.ResVals[0]) != ssa.Value(mk) {
-				if ct, ok := p.ResVals[0].(*ssa.ChangeType); !ok || ct.X != ssa.Value(mk) {
-					bad = append(bad, "the function does not return the rebuilt list")
-				}
-			}
-		}
-		c.Check(len(bad) == 0, "R3", name, "rebuilds every item (KeyValue, Group, Component) as an empty copy of the same kind at the same index", fn.Pos(), "3 cases", strings.Join(bad, "; "))
-	}
+	checkTemplateRebuild(c, "R3")
 	um := c.Func("fix/encoding", "state.unmarshal")
 	sk := c.Func("fix/encoding", "state.scanKeyValue")
 	sg := c.Func("fix/encoding", "splitGroup")
@@ -640,4 +550,101 @@ func checkValueExtraction(c *core.Ctx, rule string) {
 		}
 	}
 	c.Check(okAbsent, rule, "state.scanKeyValue", "an absent field is not an error", sk.Pos(), "return nil", "a template field that is not in the message makes parsing fail")
+}
+
+// checkTemplateRebuild: Group.AsTemplate and Component.AsTemplate rebuild every item as an empty copy of the same kind — a KeyValue
+// from its own template, a Group with its own count tag and its own template, a Component from its own template — at the same index.
+func checkTemplateRebuild(c *core.Ctx, rule string) {
+	for _, name := range []string{"Group.AsTemplate", "Component.AsTemplate"} {
+		fn := c.Func("fix", name)
+		if !c.Anchor(name, fn != nil, name, posOf(fn)) {
+			continue
+		}
+		var bad []string
+		// tmp := make([]Item, len(items)); for i, item := range items { tmp[i] = rebuilt }
+		src := map[string]string{"Group.AsTemplate": "g.template", "Component.AsTemplate": "c.items"}[name]
+		var mk *ssa.MakeSlice
+		an.AllInstrs(fn, func(in ssa.Instruction) {
+			if m, ok := in.(*ssa.MakeSlice); ok {
+				mk = m
+			}
+		})
+		if mk == nil || an.Render(mk.Len) != "len("+src+")" {
+			bad = append(bad, "the copy is not allocated with one slot per template item (make(len("+src+")))")
+		}
+		want := map[string]string{
+			"KeyValue":  ".AsTemplate()",
+			"Group":     "fix.NewGroup(",
+			"Component": "fix.NewComponent(",
+		}
+		seen := map[string]bool{}
+		an.AllInstrs(fn, func(in ssa.Instruction) {
+			st, ok := in.(*ssa.Store)
+			if !ok {
+				return
+			}
+			ia, ok := st.Addr.(*ssa.IndexAddr)
+			if !ok || mk == nil || ia.X != ssa.Value(mk) {
+				return
+			}
+			if rangeIndexPhi(ia.Index) == nil {
+				bad = append(bad, "a rebuilt item is stored at "+an.Render(ia.Index)+", not at the position of the item it was built from")
+				return
+			}
+			elem := src + "[" + an.Render(ia.Index) + "]"
+			// candidates: the value stored, or — when it is the result of a one-argument helper of the package applied to the
+			// element itself — what the helper returns on each of its paths, read in terms of its parameter
+			cands := [][2]string{{elem, an.Render(an.Unwrap(st.Val))}}
+			if call, ok := an.Unwrap(st.Val).(*ssa.Call); ok {
+				if cal := an.StaticCallee(&call.Call); cal != nil && cal.Pkg == fn.Pkg && len(cal.Params) == 1 && len(call.Call.Args) == 1 && an.Render(call.Call.Args[0]) == elem && cal.Signature.Results().Len() == 1 {
+					hp, _ := an.EnumPaths(cal, 64)
+					for _, p := range hp {
+						if p.Return != nil && len(p.ResVals) == 1 {
+							cands = append(cands, [2]string{cal.Params[0].Name(), an.Render(an.Unwrap(p.ResVals[0]))})
+						}
+					}
+				}
+			}
+			for _, cd := range cands {
+				el, r := cd[0], cd[1]
+				for kind, pat := range want {
+					asserted := el + ".(*fix." + kind + ")#0"
+					switch kind {
+					case "KeyValue":
+						if r == asserted+pat {
+							seen[kind] = true
+						}
+					case "Group":
+						// its own count tag, through the getter or the field it returns
+						if r == pat+asserted+".NoTag(), "+asserted+".AsTemplate())" || r == pat+asserted+".noTag, "+asserted+".AsTemplate())" {
+							seen[kind] = true
+						}
+					case "Component":
+						if r == pat+asserted+".AsTemplate())" {
+							seen[kind] = true
+						}
+					}
+				}
+			}
+		})
+		for kind := range want {
+			if !seen[kind] {
+				bad = append(bad, "no (correct) case rebuilding a *"+kind+" at its own index from its own template")
+			}
+		}
+		// range over the whole source
+		col := loops(fn)
+		if len(col) != 1 {
+			bad = append(bad, fmt.Sprintf("%d loops", len(col)))
+		}
+		ps, _ := an.EnumPaths(fn, 256)
+		for _, p := range ps {
+			if p.Return != nil && len(p.ResVals) == 1 && an.Unwrap(p.ResVals[0]) != ssa.Value(mk) {
+				if ct, ok := p.ResVals[0].(*ssa.ChangeType); !ok || ct.X != ssa.Value(mk) {
+					bad = append(bad, "the function does not return the rebuilt list")
+				}
+			}
+		}
+		c.Check(len(bad) == 0, rule, name, "rebuilds every item (KeyValue, Group, Component) as an empty copy of the same kind at the same index", fn.Pos(), "3 cases", strings.Join(bad, "; "))
+	}
 }
